@@ -191,14 +191,24 @@ func (m *mwState) compute(fn *ssa.Function, pi int) *mwResult {
 					continue
 				}
 				callee := core.Callee(cc)
+				var cands []*ssa.Function
+				if callee != nil {
+					cands = []*ssa.Function{callee}
+				} else {
+					cands = core.CalleeCandidates(cc) // dispatch through a function variable: every candidate must overwrite
+				}
 				for j, ai := range positions {
 					path := paths[j]
-					ow := false
-					if callee != nil {
-						if o, known := externalMW(callee, ai); known {
-							ow = o
-						} else if core.InModule(callee) && len(callee.Blocks) > 0 {
-							ow = m.mustOverwrite(callee, ai).ok
+					ow := len(cands) > 0
+					for _, cand := range cands {
+						one := false
+						if o, known := externalMW(cand, ai); known {
+							one = o
+						} else if core.InModule(cand) && len(cand.Blocks) > 0 {
+							one = m.mustOverwrite(cand, ai).ok
+						}
+						if !one {
+							ow = false
 						}
 					}
 					// the same object passed in another position is an operand: a read
